@@ -104,6 +104,13 @@ def one_case(arg):
             ("git -C subdir", d, [G.REAL_GIT, "-C", "repo/sub", "sizer"] + argv, {"PATH": bindir + ":/usr/bin:/bin"}),
             ("symlinked-path", link, [sz] + argv, {}),
         ]
+        gf = os.path.join(d, "gitfile-wt")
+        os.makedirs(os.path.join(gf, "inner"))
+        with open(os.path.join(gf, ".git"), "w") as f:
+            f.write("gitdir: %s\n" % gitdir)
+        modes.append(("gitfile", gf, [sz] + argv, {}))
+        modes.append(("gitfile-subdir", os.path.join(gf, "inner"), [sz] + argv, {}))
+        modes.append(("GIT_DIR+GIT_WORK_TREE", unrelated, [sz] + argv, {"GIT_DIR": gitdir, "GIT_WORK_TREE": work}))
         # linked worktree (created before the read-only observations; does not change objects or refs/)
         wt = os.path.join(d, "wt")
         p = gitc(work, "worktree", "add", "--detach", "--no-checkout", wt, m.commits[0].oid, check=False)
@@ -223,7 +230,7 @@ def run(chk, b, tier):
             chk.bump("worktree_add_failed")
         for m in r["modes"]:
             modes[m] = modes.get(m, 0) + 1
-        if len(r["modes"]) >= 8:
+        if len(r["modes"]) >= 10:
             chk.nontrivial(("repo", i))
         if r["replace_nontrivial"]:
             chk.bump("repositories_where_git_sees_a_different_graph_through_replace_refs")
